@@ -13,3 +13,12 @@ INVARIANTS = {
 HELPERS = {
     '107': ['parse_field_50'],
 }
+
+# message types whose parse_from_block4 is not (yet) under the field-count linearity obligation, with the reason
+NO_LINEAR = {
+}
+
+# field occurrences a helper hands back, as a spec expression over its Ok value `v`
+HELPER_COUNT = {
+    '107': {'parse_field_50': 'v.0.nf() + v.1.nf()'},
+}
